@@ -213,6 +213,11 @@ def logging_sinks(ctx, rep, cl, functions, secret_params):
             args_all = ([fmt] if fmt is not None and fmt[0] != "const" else []) + args
             bad = []
             for a in args_all:
+                # the per-run lookup holds the secrets themselves (its keys): anything computed from it other than its size is secret-derived
+                if not (M.builtin_call(a, "len", 1) and a[2][0][0] == "attr" and a[2][0][2] == "pwd_lookup"):
+                    for s in subterms(a):
+                        if s[0] == "attr" and s[2] == "pwd_lookup":
+                            bad.append("the secret lookup " + show(s))
                 for s in subterms(a):
                     if s[0] == "param" and s[1] in tainted:
                         bad.append(show(s))
